@@ -51,7 +51,7 @@ var rec *recording
 // each entry: after how many completed pieces the action happens
 type histAction struct {
 	AfterPieces int
-	What        string // tick | stop-start | verify
+	What        string // tick | stop-start | verify | write-fail-<n>
 }
 
 var histories = [][]histAction{
@@ -65,6 +65,9 @@ var histories = [][]histAction{
 	{{2, "verify"}},
 	{{1, "tick"}, {2, "stop-start"}},
 	{{3, "stop-start"}, {4, "tick"}},
+	{{1, "write-fail-1"}},                // the next file write fails (disk full): the torrent stops with the error, is started again
+	{{1, "write-fail-2"}, {3, "tick"}},   // the second file write from there fails (a piece spanning two files is half written)
+	{{2, "write-fail-1"}, {2, "tick"}},
 }
 
 func c05Layout() lab.Layout { return lab.LayoutMulti(32768, 50000, 70000) } // 2 files, 4 pieces
@@ -141,6 +144,12 @@ func mkRecord() *lab.Scenario {
 						p1.ConnectIn(w.Tor.VerifState().Port, w.G.InfoHash)
 					}
 				}}}
+			case "write-fail-1", "write-fail-2":
+				return []lab.Action{{Label: h.What, Do: func(w *lab.World) {
+					done[i] = true
+					w.Store.FailWriteIn = int(h.What[len(h.What)-1] - '0')
+					w.Vars["writefail"] = true
+				}}}
 			case "verify":
 				return []lab.Action{{Label: "verify+start", Do: func(w *lab.World) {
 					done[i] = true
@@ -157,6 +166,17 @@ func mkRecord() *lab.Scenario {
 		acts := lab.StdActions(w)
 		if len(acts) > 1 {
 			acts = acts[:1]
+		}
+		if s := w.Tor.VerifState(); len(acts) == 0 && w.Vars["writefail"] != nil && s.Status == "Stopped" && s.LastError != "" && !s.Completed {
+			// the torrent stopped on the injected write error: the user starts it again
+			return []lab.Action{{Label: "start after write error", Do: func(w *lab.World) {
+				delete(w.Vars, "writefail")
+				w.CmdStart()
+				w.DrainDefault(50)
+				if w.Listening() && !p1.Connected() {
+					p1.ConnectIn(w.Tor.VerifState().Port, w.G.InfoHash)
+				}
+			}}}
 		}
 		if len(acts) == 0 && w.Listening() && !p1.Connected() && !w.Tor.VerifState().Completed {
 			return []lab.Action{{Label: "reconnect p1", Do: func(w *lab.World) { p1.ConnectIn(w.Tor.VerifState().Port, w.G.InfoHash) }}}
@@ -418,17 +438,20 @@ func buildImages(r *recording, thorough bool) []image {
 func TestC05(t *testing.T) {
 	lab.ServeIfWorker(t)
 	rep := core.NewReport("C05", "crashlab", "fault_enumeration")
-	rep.Rule = "download histories of a 4-piece / 2-file torrent with resume ticks, stop+start and verify at enumerated positions; for every prefix of the merged log of {data write, db page write, db fdatasync, db growth}, every torn variant of the in-flight data write and every subset of db page writes not yet covered by an fdatasync: rebuild both images, open a fresh session (ResumeOnStartup off and on), start, drain; plus every subset of files deleted at restart. Distinct = distinct (db image, storage image) pairs"
+	rep.Rule = "download histories of a 4-piece / 2-file torrent with resume ticks, stop+start, verify and failing file writes (disk full; also in the middle of a piece that spans two files) at enumerated positions; for every prefix of the merged log of {data write, db page write, db fdatasync, db growth}, every torn variant of the in-flight data write and every subset of db page writes not yet covered by an fdatasync: rebuild both images, open a fresh session (ResumeOnStartup off and on), start, drain; plus every subset of files deleted at restart. Distinct = distinct (db image, storage image) pairs"
 	rep.Assumptions = []string{"data files are durable at WriteAt return (O_SYNC, asserted on the real file storage)", "torn db page writes inside one page and reordering across an fdatasync are not modelled", "at most the last 4 unsynced db writes are permuted"}
-	nh := 4
+	hs := []int{0, 1, 2, 3, 10, 11}
 	if core.Thorough() {
-		nh = len(histories)
+		hs = nil
+		for h := range histories {
+			hs = append(hs, h)
+		}
 	}
 	checkOSync(rep)
 	var runs []lab.Run
 	seen := map[string]bool{}
 	var nImages int64
-	for h := 0; h < nh; h++ {
+	for _, h := range hs {
 		argb, _ := json.Marshal(recArg{History: h})
 		res := lab.Exec(t, mkRecord(), argb, nil, nil)
 		if len(res.Violations) > 0 {
